@@ -216,8 +216,107 @@ class AServer(srv.ASrvHarness):
         ]
 
 
-HARNESSES = {'afifo': AFifoH, 'aserver': AServer}
-PLAN = {'quick': ['afifo', 'aserver'], 'thorough': ['afifo', 'aserver']}
+class HybridExec(Exec):
+    """the thread/loop hybrids: ParmapperAsync (sync consumer, async worker on a loop thread) and AsyncParmapper (async consumer
+    on a virtual loop, sync worker in a thread pool) must give the reference list as well"""
+
+    def __init__(self, cfg):
+        self.cfg = cfg
+
+    def body(self):
+        import time
+        cfg = self.cfg
+        n, durs, fail, rej, rx, rex, conc = cfg['n'], cfg['durs'], cfg.get('fail'), cfg.get('rej'), cfg['rx'], cfg['rex'], cfg['conc']
+
+        def pre(x):
+            if x == rej:
+                raise Boom('pre', x)
+            return x + SHIFT[0]
+
+        kw = dict(concurrency=conc, return_x=rx, return_exceptions=rex, preprocessor=pre if rej is not None else None)
+        out = []
+        if cfg['variant'] == 'sync_async':
+            from mpservice.streamer import Stream
+
+            async def work(x):
+                x = x - SHIFT[0] if rej is not None else x
+                if durs[x]:
+                    await asyncio.sleep(durs[x] * 0.01)
+                if x == fail:
+                    raise Boom('func', x)
+                return x * 10
+
+            try:
+                for z in Stream(iter(range(n))).parmap(work, **kw):
+                    out.append(norm(z))
+            except Boom as e:
+                out.append(('RAISED',) + norm(e))
+            return out
+
+        from mpservice.streamer._streamer_async import AsyncStream
+
+        def work(x):
+            x = x - SHIFT[0] if rej is not None else x
+            if durs[x]:
+                time.sleep(durs[x] * 0.01)
+            if x == fail:
+                raise Boom('func', x)
+            return x * 10
+
+        async def main():
+            async def src():
+                for i in range(n):
+                    yield i
+            try:
+                async for z in AsyncStream(src()).parmap(work, executor='thread', **kw):
+                    out.append(norm(z))
+            except Boom as e:
+                out.append(('RAISED',) + norm(e))
+
+        asyncio.run(main())
+        return out
+
+    def verdict(self, r):
+        v = default_verdict(r)
+        if v:
+            return v
+        cfg = self.cfg
+        exp = reference(cfg['n'], cfg.get('fail'), cfg.get('rej'), cfg['rx'], cfg['rex'])
+        if r.value != exp:
+            return ('hybrid-differs-from-reference:' + cfg['variant'], f'{cfg}: got {r.value}, expected {exp}')
+        return None
+
+
+class HybridsH(Harness):
+    name = 'hybrids'
+    opts = dict(max_points=8000, timers='free', max_timer_fires=2000)
+
+    def setup(self):
+        vloop.install()
+        from mpservice._queues import SingleLane
+        from mpservice.streamer import _streamer as S
+        from mpservice.streamer import _streamer_async as A
+        codes = []
+        for f in (S.fifo_stream, S.async_fifo_stream, S.ParmapperAsync.__iter__, A.AsyncParmapper.__aiter__, SingleLane.put, SingleLane.get):
+            codes += sched.all_codes(f)
+        return codes
+
+    def configs(self, tier):
+        quick = tier == 'quick'
+        out = []
+        for variant in ('sync_async', 'async_sync'):
+            for durs in ([0, 0, 0], [2, 1, 0], [0, 3, 1]):
+                for rx, rex, fail, rej in ((True, True, 1, None), (False, False, None, 0), (True, False, 2, 1), (False, True, None, 2)):
+                    out.append(dict(variant=variant, n=3, durs=durs, conc=2, rx=rx, rex=rex, fail=fail, rej=rej,
+                                    bound=1 if quick else 2, cap=20000 if quick else 200000))
+        return out
+
+    def new(self, cfg):
+        return HybridExec(cfg)
+
+
+HARNESSES = {'afifo': AFifoH, 'aserver': AServer, 'hybrids': HybridsH}
+PLAN = {'quick': ['afifo', 'aserver', 'hybrids'], 'thorough': ['afifo', 'aserver', 'hybrids']}
 RULE = ('complete enumeration of duration vectors x failing position x rejected position x capacity x flags; each case '
         'runs the real async code on a virtual event loop and the real sync code; non-trivial = durations not all equal '
         'or a failure/rejection present')
